@@ -17,6 +17,10 @@ func getTypeFromSchema(schema *spec.Schema) (typeName string, isArray bool) {
 	}
 	typeName = schema.Type[0]
 	if typeName == ArrayType {
+		if schema.Items == nil || schema.Items.Schema == nil {
+			// no items, or tuple items: there is no single item type to name
+			return "", true
+		}
 		typeName, _ = getSchemaType(&schema.Items.Schema.SchemaProps)
 		return typeName, true
 	}
@@ -50,6 +54,9 @@ func getTypeFromSchemaProps(schema *spec.SchemaProps) (typeName string, isArray 
 			typeName = fmt.Sprintf("%s.%s", typeName, format)
 		}
 		if typeName == ArrayType {
+			if schema.Items == nil || schema.Items.Schema == nil {
+				return "", true
+			}
 			typeName, _ = getSchemaType(&schema.Items.Schema.SchemaProps)
 			return typeName, true
 		}
